@@ -86,6 +86,8 @@ def findings(job, line):
 
 
 def grid(prop, quick, seed=0):
+    if prop in ('C07', 'C12'):
+        return ['(C07: job list run in two processes; C12: seeds 0..N per protocol, opcode histogram)'] * (1000 if quick else 8000)
     rnd = random.Random(seed)
     jobs = []
     inputs = ['hex=']
@@ -150,9 +152,67 @@ def grid(prop, quick, seed=0):
     return jobs
 
 
+def find_c07(quick, seed):
+    """Determinism: the same jobs in two separately started processes (fresh hash seeds, fresh address
+    space) and on two generator instances must give identical bytes."""
+    jobs = []
+    for P in range(6):
+        for sd in range(60 if quick else 600):
+            jobs.append('P=%d seed=%d' % (P, sd))
+            jobs.append('P=%d seed=%d min=400 max=700 mut=offbyone,memoindex,stringlen rate=0.5' % (P, sd))
+        for h in ('', '00', 'ff01fe02', '0102030405060708090a0b0c0d0e0f10111213'):
+            jobs.append('P=%d hex=%s min=300 max=500' % (P, h))
+    a = run_jobs(jobs)
+    b = run_jobs(jobs)
+    for (j, x), (_, y) in zip(a, b):
+        if x != y:
+            return j, x, 'C07 two processes returned different bytes for the same configuration and entropy (%d vs %d hex chars)' % (len(x), len(y))
+    return None
+
+
+def find_c12(quick, seed):
+    """Reachability (bounded): over seeds 0..N with default settings every opcode of the protocol's
+    table occurs in some output, and for P >= 4 framed and unframed pickles both occur."""
+    import json as _json
+    import pickletools
+    ref = _json.load(open(os.path.join(VERIF, 'build', 'gen', 'ref_tables.json')))
+    n = 6000 if quick else 30000
+    for P in range(6):
+        for flags, extra in (('', set()), ('ext=1 buffer=1', {'EXT1', 'EXT2', 'EXT4', 'NEXT_BUFFER', 'READONLY_BUFFER'})):
+            jobs = ['P=%d seed=%d %s' % (P, sd, flags) for sd in range(n)]
+            seen, framed, unframed = set(), 0, 0
+            for j, line in run_jobs(jobs):
+                if not line.startswith('ok '):
+                    continue
+                data = bytes.fromhex(line[3:])
+                try:
+                    names = [o.name for o, a, p in pickletools.genops(data)]
+                except Exception:  # noqa: BLE001
+                    continue
+                seen.update(names)
+                if 'FRAME' in names:
+                    framed += 1
+                else:
+                    unframed += 1
+            want = {r['py'] for r in ref if r['proto'] <= P} - {'EXT1', 'EXT2', 'EXT4', 'NEXT_BUFFER', 'READONLY_BUFFER', 'FRAME'}
+            want |= {x for x in extra if [r for r in ref if r['py'] == x][0]['proto'] <= P}
+            if P < 2:
+                want -= {'PROTO'}
+            missing = sorted(want - seen)
+            if missing:
+                return 'P=%d seeds 0..%d %s' % (P, n - 1, flags), 'histogram', 'C12 opcodes never produced for protocol %d in %d seeds: %s' % (P, n, missing)
+            if P >= 4 and (framed == 0 or unframed == 0):
+                return 'P=%d seeds 0..%d' % (P, n - 1), 'histogram', 'C12 framed=%d unframed=%d' % (framed, unframed)
+    return None
+
+
 def find(prop, quick=True, seed=0, limit=None):
     """Returns (job, output_line, violation) of the first input violating `prop`, or None."""
     build()
+    if prop == 'C07':
+        return find_c07(quick, seed)
+    if prop == 'C12':
+        return find_c12(quick, seed)
     jobs = grid(prop, quick, seed)
     if limit:
         jobs = jobs[:limit]
